@@ -1,3 +1,451 @@
 package main
 
-func genFactsImpl(p *pkgInfo, out string) {}
+import (
+	"fmt"
+	"go/ast"
+	"go/token"
+	"go/types"
+	"path/filepath"
+	"sort"
+	"strings"
+)
+
+// genFactsImpl extracts, for every function of package ajson (methods as Type.Name, function literals
+// of the registry maps as functions[name] / operations[name]):
+//   - writes to fields of Node values (assignments, map writes, delete, whole-struct stores) with the
+//     syntactic origin of the written node,
+//   - calls of atomic.Value methods (Load / Store) and plain copies of a value that contains an atomic.Value,
+//   - byte-level writes (indexed store, copy, append) with the syntactic root of the destination,
+//   - static call edges.
+// These are facts about syntax; the Lean theorems over them are in Props/C12, C13, C18.
+func genFactsImpl(p *pkgInfo, out string) {
+	type write struct{ fn, field, origin string }
+	type bwrite struct{ fn, kind, root string }
+	type edge struct{ from, to string }
+	var writes []write
+	var bwrites []bwrite
+	var edges []edge
+	var atomics []write // fn, what ("Load","Store","copy"), detail
+	var argFacts []write
+
+	nodeType := p.pkg.Scope().Lookup("Node").Type()
+	isNode := func(t types.Type) bool {
+		if t == nil {
+			return false
+		}
+		if ptr, ok := t.(*types.Pointer); ok {
+			t = ptr.Elem()
+		}
+		return types.Identical(t, nodeType)
+	}
+	isBytes := func(t types.Type) bool {
+		if t == nil {
+			return false
+		}
+		s, ok := t.Underlying().(*types.Slice)
+		if !ok {
+			return false
+		}
+		b, ok := s.Elem().Underlying().(*types.Basic)
+		return ok && b.Kind() == types.Byte
+	}
+	containsAtomic := func(t types.Type) bool {
+		if t == nil {
+			return false
+		}
+		st, ok := t.Underlying().(*types.Struct)
+		if !ok {
+			return false
+		}
+		for i := 0; i < st.NumFields(); i++ {
+			if strings.HasSuffix(st.Field(i).Type().String(), "sync/atomic.Value") {
+				return true
+			}
+		}
+		return false
+	}
+
+	// origin of an expression denoting a node or a byte slice inside function body fb
+	var originOf func(e ast.Expr, fd ast.Node, params map[string]bool) string
+	originOf = func(e ast.Expr, fd ast.Node, params map[string]bool) string {
+		switch x := e.(type) {
+		case *ast.ParenExpr:
+			return originOf(x.X, fd, params)
+		case *ast.StarExpr:
+			return originOf(x.X, fd, params)
+		case *ast.Ident:
+			if params[x.Name] {
+				return "param:" + x.Name
+			}
+			// find the defining statement in the function
+			def := ""
+			ast.Inspect(fd, func(n ast.Node) bool {
+				switch s := n.(type) {
+				case *ast.AssignStmt:
+					for i, l := range s.Lhs {
+						if id, ok := l.(*ast.Ident); ok && id.Name == x.Name && (s.Tok == token.DEFINE || def == "") {
+							var r ast.Expr
+							if len(s.Rhs) == len(s.Lhs) {
+								r = s.Rhs[i]
+							} else if len(s.Rhs) == 1 {
+								r = s.Rhs[0]
+							}
+							if r != nil {
+								d := classifyInit(p, r)
+								if s.Tok == token.DEFINE || def == "" {
+									if def == "" || s.Tok == token.DEFINE {
+										def = d
+									}
+								}
+							}
+						}
+					}
+				case *ast.ValueSpec:
+					for i, id := range s.Names {
+						if id.Name == x.Name {
+							if i < len(s.Values) {
+								def = classifyInit(p, s.Values[i])
+							} else {
+								def = "zero"
+							}
+						}
+					}
+				case *ast.RangeStmt:
+					for _, v := range []ast.Expr{s.Key, s.Value} {
+						if id, ok := v.(*ast.Ident); ok && id.Name == x.Name {
+							def = "range:" + strings.Join(strings.Fields(exprText(p, s.X)), "")
+						}
+					}
+				}
+				return true
+			})
+			if def == "" {
+				if obj := p.info.Uses[x]; obj != nil && obj.Parent() == p.pkg.Scope() {
+					return "global:" + x.Name
+				}
+				// named results and receivers
+				return "result-or-receiver:" + x.Name
+			}
+			return def
+		case *ast.SelectorExpr:
+			return "field:" + strings.Join(strings.Fields(exprText(p, x)), "")
+		case *ast.IndexExpr:
+			return "elem:" + originOf(x.X, fd, params)
+		case *ast.SliceExpr:
+			return "slice-of:" + originOf(x.X, fd, params)
+		case *ast.CallExpr:
+			return classifyInit(p, x)
+		}
+		return "other"
+	}
+
+	visit := func(name string, body *ast.BlockStmt, ftype *ast.FuncType, recv *ast.FieldList) {
+		if body == nil {
+			return
+		}
+		params := map[string]bool{}
+		for _, fl := range []*ast.FieldList{ftype.Params, recv} {
+			if fl == nil {
+				continue
+			}
+			for _, f := range fl.List {
+				for _, n := range f.Names {
+					params[n.Name] = true
+				}
+			}
+		}
+		recordAssign := func(lhs ast.Expr, rhs ast.Expr) {
+			switch l := lhs.(type) {
+			case *ast.SelectorExpr:
+				if isNode(p.info.TypeOf(l.X)) {
+					writes = append(writes, write{name, l.Sel.Name, originOf(l.X, body, params)})
+				}
+			case *ast.IndexExpr:
+				// node.children[k] = v   /  bytes[i] = c  /  node.borders[1] = x
+				if sel, ok := l.X.(*ast.SelectorExpr); ok && isNode(p.info.TypeOf(sel.X)) {
+					writes = append(writes, write{name, sel.Sel.Name + "[]", originOf(sel.X, body, params)})
+				} else if isBytes(p.info.TypeOf(l.X)) {
+					bwrites = append(bwrites, bwrite{name, "store", originOf(l.X, body, params)})
+				}
+			case *ast.StarExpr:
+				if isNode(p.info.TypeOf(l.X)) {
+					writes = append(writes, write{name, "*", originOf(l.X, body, params)})
+					atomics = append(atomics, write{name, "copy", "*" + exprText(p, l.X) + " = " + strings.Join(strings.Fields(exprText(p, rhs)), "")})
+				}
+			}
+		}
+		ast.Inspect(body, func(n ast.Node) bool {
+			switch s := n.(type) {
+			case *ast.FuncLit:
+				return true // closures belong to the enclosing function
+			case *ast.AssignStmt:
+				for i, l := range s.Lhs {
+					var r ast.Expr
+					if len(s.Rhs) == len(s.Lhs) {
+						r = s.Rhs[i]
+					} else if len(s.Rhs) > 0 {
+						r = s.Rhs[0]
+					}
+					recordAssign(l, r)
+					// plain copy of a struct holding an atomic.Value on the right-hand side
+					if r != nil {
+						if sel, ok := r.(*ast.SelectorExpr); ok && strings.HasSuffix(fmt.Sprint(p.info.TypeOf(sel)), "sync/atomic.Value") {
+							atomics = append(atomics, write{name, "copy", strings.Join(strings.Fields(exprText(p, s)), "")})
+						}
+					}
+				}
+			case *ast.IncDecStmt:
+				recordAssign(s.X, nil)
+			case *ast.KeyValueExpr:
+				// composite literal field `value: n.value`
+				if id, ok := s.Key.(*ast.Ident); ok && id.Name == "value" {
+					if strings.HasSuffix(fmt.Sprint(p.info.TypeOf(s.Value)), "sync/atomic.Value") {
+						atomics = append(atomics, write{name, "copy", strings.Join(strings.Fields(exprText(p, s)), "")})
+					}
+				}
+			case *ast.CallExpr:
+				switch f := s.Fun.(type) {
+				case *ast.Ident:
+					switch f.Name {
+					case "delete":
+						if len(s.Args) == 2 {
+							if sel, ok := s.Args[0].(*ast.SelectorExpr); ok && isNode(p.info.TypeOf(sel.X)) {
+								writes = append(writes, write{name, sel.Sel.Name + "[]", originOf(sel.X, body, params)})
+							}
+						}
+					case "copy":
+						if len(s.Args) == 2 && isBytes(p.info.TypeOf(s.Args[0])) {
+							bwrites = append(bwrites, bwrite{name, "copy", originOf(s.Args[0], body, params)})
+						}
+					case "append":
+						if len(s.Args) >= 1 && isBytes(p.info.TypeOf(s.Args[0])) {
+							bwrites = append(bwrites, bwrite{name, "append", originOf(s.Args[0], body, params)})
+						}
+					default:
+						if obj := p.info.Uses[f]; obj != nil {
+							if _, ok := obj.(*types.Func); ok && obj.Pkg() == p.pkg {
+								edges = append(edges, edge{name, f.Name})
+								if f.Name == "ArrayNode" || f.Name == "ObjectNode" {
+									argFacts = append(argFacts, write{name, f.Name, strings.Join(strings.Fields(exprText(p, s.Args[len(s.Args)-1])), "")})
+								}
+							} else if v, ok := obj.(*types.Var); ok && v.Pkg() == p.pkg {
+								// calling a function-typed variable (fn, op, randFunc …)
+								edges = append(edges, edge{name, "var:" + f.Name})
+							}
+						}
+					}
+				case *ast.SelectorExpr:
+					if selInfo, ok := p.info.Selections[f]; ok {
+						if fn, ok := selInfo.Obj().(*types.Func); ok {
+							if fn.Pkg() == p.pkg {
+								recv := selInfo.Recv()
+								if ptr, ok := recv.(*types.Pointer); ok {
+									recv = ptr.Elem()
+								}
+								tn := recv.String()
+								tn = tn[strings.LastIndex(tn, ".")+1:]
+								edges = append(edges, edge{name, tn + "." + fn.Name()})
+							} else if strings.HasSuffix(fmt.Sprint(selInfo.Recv()), "sync/atomic.Value") {
+								base := ""
+								if inner, ok := f.X.(*ast.SelectorExpr); ok {
+									base = originOf(inner.X, body, params)
+								}
+								atomics = append(atomics, write{name, fn.Name(), base})
+							}
+						}
+					} else if id, ok := f.X.(*ast.Ident); ok && id.Name == "atomic" && strings.HasPrefix(f.Sel.Name, "Store") {
+						// atomic.StoreInt32((*int32)(&n._type), …)
+						writes = append(writes, write{name, "atomic." + f.Sel.Name, "call:" + strings.Join(strings.Fields(exprText(p, s.Args[0])), "")})
+					}
+				case *ast.IndexExpr:
+					// functions["length"](element)
+					if id, ok := f.X.(*ast.Ident); ok && (id.Name == "functions" || id.Name == "operations") {
+						key := strings.Trim(exprText(p, f.Index), "\"")
+						edges = append(edges, edge{name, id.Name + "[" + key + "]"})
+					}
+				}
+			}
+			return true
+		})
+	}
+
+	for i, f := range p.files {
+		_ = p.names[i]
+		for _, d := range f.Decls {
+			switch fd := d.(type) {
+			case *ast.FuncDecl:
+				name := fd.Name.Name
+				if fd.Recv != nil && len(fd.Recv.List) == 1 {
+					t := fd.Recv.List[0].Type
+					if st, ok := t.(*ast.StarExpr); ok {
+						t = st.X
+					}
+					if id, ok := t.(*ast.Ident); ok {
+						name = id.Name + "." + name
+					}
+				}
+				visit(name, fd.Body, fd.Type, fd.Recv)
+			case *ast.GenDecl:
+				if fd.Tok != token.VAR {
+					continue
+				}
+				for _, s := range fd.Specs {
+					vs := s.(*ast.ValueSpec)
+					for vi, id := range vs.Names {
+						if vi >= len(vs.Values) || (id.Name != "functions" && id.Name != "operations") {
+							continue
+						}
+						cl, ok := vs.Values[vi].(*ast.CompositeLit)
+						if !ok {
+							continue
+						}
+						for _, e := range cl.Elts {
+							kv := e.(*ast.KeyValueExpr)
+							key := p.constString(kv.Key)
+							fname := id.Name + "[" + key + "]"
+							// the evaluator calls every registry member through fn / op
+							edges = append(edges, edge{"var:fn", fname}, edge{"var:op", fname})
+							switch v := kv.Value.(type) {
+							case *ast.FuncLit:
+								visit(fname, v.Body, v.Type, nil)
+							case *ast.CallExpr:
+								if cid, ok := v.Fun.(*ast.Ident); ok {
+									edges = append(edges, edge{fname, cid.Name})
+								}
+							}
+						}
+					}
+				}
+			}
+		}
+	}
+	// function literals returned by numericFunction
+	_ = containsAtomic
+
+	uniq := func(xs []string) []string {
+		sort.Strings(xs)
+		var out []string
+		for i, x := range xs {
+			if i == 0 || x != xs[i-1] {
+				out = append(out, x)
+			}
+		}
+		return out
+	}
+	l := newLean("all non-test files of package ajson (syntactic effect facts)")
+	var ws, bs, es, as, gs []string
+	for _, w := range writes {
+		ws = append(ws, fmt.Sprintf("(%s, %s, %s)", leanStr(w.fn), leanStr(w.field), leanStr(w.origin)))
+	}
+	for _, b := range bwrites {
+		bs = append(bs, fmt.Sprintf("(%s, %s, %s)", leanStr(b.fn), leanStr(b.kind), leanStr(b.root)))
+	}
+	for _, e := range edges {
+		es = append(es, fmt.Sprintf("(%s, %s)", leanStr(e.from), leanStr(e.to)))
+	}
+	for _, a := range atomics {
+		as = append(as, fmt.Sprintf("(%s, %s, %s)", leanStr(a.fn), leanStr(a.field), leanStr(a.origin)))
+	}
+	for _, a := range argFacts {
+		gs = append(gs, fmt.Sprintf("(%s, %s, %s)", leanStr(a.fn), leanStr(a.field), leanStr(a.origin)))
+	}
+	emit := func(name, typ, doc string, xs []string) {
+		xs = uniq(xs)
+		l.printf("/-- %s -/\ndef %s : List (%s) := [\n", doc, name, typ)
+		for i, x := range xs {
+			l.printf("  %s%s\n", x, comma(i, len(xs)))
+		}
+		l.printf("]\n\n")
+	}
+	// function names get numbers so that the kernel decides reachability on naturals, not on strings
+	nameSet := map[string]bool{}
+	for _, e := range edges {
+		nameSet[e.from], nameSet[e.to] = true, true
+	}
+	for _, w := range writes {
+		nameSet[w.fn] = true
+	}
+	for _, a := range atomics {
+		nameSet[a.fn] = true
+	}
+	for _, b := range bwrites {
+		nameSet[b.fn] = true
+	}
+	var names []string
+	for n := range nameSet {
+		names = append(names, n)
+	}
+	sort.Strings(names)
+	id := map[string]int{}
+	for i, n := range names {
+		id[n] = i
+	}
+	l.printf("/-- every function that occurs in the facts below; position = number -/\ndef funcNames : List String := [\n")
+	for i, n := range names {
+		l.printf("  %s%s -- %d\n", leanStr(n), comma(i, len(names)), i)
+	}
+	l.printf("]\n\n")
+	var esN, wsN, asN []string
+	for _, e := range edges {
+		esN = append(esN, fmt.Sprintf("(%d, %d)", id[e.from], id[e.to]))
+	}
+	for _, w := range writes {
+		wsN = append(wsN, fmt.Sprintf("(%d, %s, %s)", id[w.fn], leanStr(w.field), leanStr(w.origin)))
+	}
+	for _, a := range atomics {
+		asN = append(asN, fmt.Sprintf("(%d, %s, %s)", id[a.fn], leanStr(a.field), leanStr(a.origin)))
+	}
+	emit("nodeWrites", "String × String × String", "(function, field of Node written, syntactic origin of the written node)", ws)
+	emit("nodeWritesN", "Nat × String × String", "nodeWrites with the function by number", wsN)
+	emit("byteWrites", "String × String × String", "(function, kind of byte-level write, syntactic root of the destination slice)", bs)
+	emit("atomicUses", "String × String × String", "(function, Load / Store / copy of an atomic.Value, detail)", as)
+	emit("atomicUsesN", "Nat × String × String", "atomicUses with the function by number", asN)
+	emit("callEdges", "String × String", "static call edges (methods as Type.Name; registry members as functions[name]; calls through function-typed variables as var:name)", es)
+	emit("callEdgesN", "Nat × Nat", "callEdges by number", esN)
+	emit("constructorArgs", "String × String × String", "(caller, ArrayNode/ObjectNode, text of the node-list argument)", gs)
+	l.finish(filepath.Join(out, "Effects.lean"))
+}
+
+func classifyInit(p *pkgInfo, r ast.Expr) string {
+	switch x := r.(type) {
+	case *ast.UnaryExpr:
+		if x.Op == token.AND {
+			if _, ok := x.X.(*ast.CompositeLit); ok {
+				return "fresh:literal"
+			}
+		}
+	case *ast.CompositeLit:
+		return "fresh:literal"
+	case *ast.CallExpr:
+		switch f := x.Fun.(type) {
+		case *ast.Ident:
+			switch f.Name {
+			case "make":
+				return "fresh:make"
+			case "append":
+				return "append-of:" + strings.Join(strings.Fields(exprText(p, x.Args[0])), "")
+			}
+			return "call:" + f.Name
+		case *ast.ArrayType:
+			// []byte(s) conversion
+			return "fresh:conversion"
+		case *ast.SelectorExpr:
+			return "call:" + strings.Join(strings.Fields(exprText(p, f)), "")
+		case *ast.ParenExpr:
+			return "conversion"
+		}
+		return "call"
+	case *ast.Ident:
+		if x.Name == "nil" {
+			return "zero"
+		}
+		return "alias:" + x.Name
+	case *ast.SelectorExpr:
+		return "field:" + strings.Join(strings.Fields(exprText(p, x)), "")
+	case *ast.SliceExpr:
+		return "slice-of:" + strings.Join(strings.Fields(exprText(p, x.X)), "")
+	case *ast.IndexExpr:
+		return "elem:" + strings.Join(strings.Fields(exprText(p, x.X)), "")
+	}
+	return "other"
+}
